@@ -33,6 +33,7 @@ SHARDS = {"quick": 4, "thorough": 16}
 
 def setup(ctx):
     MM.prepare(ctx)
+    ctx.small_scope_revin = True
     ctx.diag = {}
     ctx.c15_kept = []
     M, single = MM.classes()
@@ -95,6 +96,11 @@ def _recheck_kept(ctx):
 def run(ctx):
     ctx.c15_kept = []
     run_trees(ctx, _run_tree(ctx), n_random=1500 if ctx.tier == "quick" else 30000, max_atoms=7 if ctx.tier == "quick" else 9)
+    # literal-on-the-left in / not in atoms among ==/!= atoms and groups of the same variable (shapes only)
+    ctx.small_scope_revin = False   # (the small-scope strata ran above; the second pass is random trees only)
+    run_trees(ctx, _run_tree(ctx), n_random=300 if ctx.tier == "quick" else 5000, max_atoms=6, small_frac=0.0,
+              cfg=MW.Cfg(rev_in=True, few_vars=["sys_platform", "os_name"]), seconds=6 if ctx.tier == "quick" else 60,
+              strata=False)
     _recheck_kept(ctx)
 
 
